@@ -128,6 +128,14 @@ func (c *trCtx) assignedIn2(through bool, nodes ...ast.Node) []types.Object {
 						}
 					}
 				}
+				if c.t.isSortStmt(c.info(), x) {
+					mark(x.Args[0]) // compare.Sort sorts in place
+				}
+				if ws, ok := c.effectCallWrites(x); ok {
+					for _, o := range ws {
+						assigned[o] = true
+					}
+				}
 				if tf, recv := c.calleeOf(x); tf != nil {
 					for _, mi := range tf.mut {
 						if a := c.callArg(x, recv, tf, mi); a != nil {
@@ -338,7 +346,7 @@ func (c *trCtx) stmts(list []ast.Stmt, k trK) trLines {
 // returnTerm: `return e1, e2` of the function being translated
 func (c *trCtx) returnTerm(vals []string, pos token.Pos) trLines {
 	for _, m := range c.fn.mutObjs {
-		vals = append([]string{c.names[m]}, vals...)
+		vals = append([]string{c.mutName(m)}, vals...)
 	}
 	// mutObjs were prepended in reverse: restore declaration order
 	if n := len(c.fn.mutObjs); n > 1 {
@@ -499,6 +507,12 @@ func (c *trCtx) exprStmt(x *ast.ExprStmt, k trK) trLines {
 	}
 	if r, ok := c.treeStmt(call, nil, false, k); ok {
 		return r
+	}
+	if out, ok := c.sortStmt(call, k); ok {
+		return out // compare.Sort(X, F) (trans_units_jprinter.go)
+	}
+	if out, ok := c.effectCall(call, nil, false, k); ok {
+		return out
 	}
 	if tf, recv := c.calleeOf(call); tf != nil && len(tf.mut) > 0 {
 		return c.mutCall(call, tf, recv, nil, false, k)
@@ -687,9 +701,15 @@ func (c *trCtx) assign(x *ast.AssignStmt, k trK) trLines {
 		trFail(x.Pos(), "assignment with %d targets and %d values is outside the subset", len(x.Lhs), len(x.Rhs))
 	}
 	if len(x.Lhs) == 1 {
+		if out, ok := c.closureRecStmt(x, k); ok {
+			return out // x := &T{F: func…} (trans_units_jprinter.go)
+		}
 		if call, ok := x.Rhs[0].(*ast.CallExpr); ok {
 			if r, ok := c.treeStmt(call, x.Lhs, x.Tok == token.DEFINE, k); ok {
 				return r
+			}
+			if out, ok := c.effectCall(call, x.Lhs, x.Tok == token.DEFINE, k); ok {
+				return out
 			}
 			if tf, recv := c.calleeOf(call); tf != nil && len(tf.mut) > 0 {
 				return c.mutCall(call, tf, recv, x.Lhs, x.Tok == token.DEFINE, k)
@@ -937,6 +957,10 @@ func (c *trCtx) branch(cond string, a, b []ast.Stmt, whole ast.Node, k trK) trLi
 	}
 	for _, s := range b {
 		nodesA = append(nodesA, s)
+	}
+	if c.hasJump(nodesA...) && !c.createsAlias(nodesA...) && c.flowJoinWanted(nodesA) {
+		// opt-in (trFlowJoin): the branches join in Flow, the rest follows once (trans_units_jprinter.go)
+		return c.flowJoin(cond, func(k2 trK) trLines { return c.stmts(a, k2) }, func(k2 trK) trLines { return c.stmts(b, k2) }, nodesA, whole.Pos(), k)
 	}
 	if c.hasJump(nodesA...) || c.createsAlias(nodesA...) {
 		// some path leaves: the rest of the statement list is continued inside both branches
